@@ -22,6 +22,7 @@ type FnResult struct {
 	Assumed   []string
 	Loops     []string
 	InstrCount int
+	header     string
 }
 
 // GenFunc generates the obligations of one function under contract.
@@ -56,6 +57,7 @@ func (g *Gen) GenFunc(key string) (res *FnResult) {
 	st := &State{g: g, reach: "true", heaps: map[string]string{}, armed: map[*ssa.Defer]string{}}
 	c.next0 = c.declare("next0", SInt)
 	c.emit(fmt.Sprintf("(assert (>= %s 1))", c.next0))
+	c.emit(fmt.Sprintf("(assert (= wfnext@0 %s))", c.next0))
 	st.next = c.next0
 	var args []Val
 	fr0 := &frame{c: c, fn: fn}
@@ -113,8 +115,89 @@ func posOf(g *Gen, p interface{ IsValid() bool }) string {
 	return ""
 }
 
-// Header assembles everything that precedes the per-function lines.
-func (g *Gen) Header() string {
+// symTokens splits SMT text into the set of symbols it mentions.
+func symTokens(texts ...string) map[string]bool {
+	out := map[string]bool{}
+	for _, t := range texts {
+		start := -1
+		for i := 0; i <= len(t); i++ {
+			sep := i == len(t) || t[i] == ' ' || t[i] == '(' || t[i] == ')' || t[i] == '\n' || t[i] == '\t'
+			if sep {
+				if start >= 0 {
+					out[t[start:i]] = true
+					start = -1
+				}
+			} else if start < 0 {
+				start = i
+			}
+		}
+	}
+	return out
+}
+
+// Header assembles everything that precedes the per-function lines (all symbols).
+func (g *Gen) Header() string { return g.HeaderFor(nil) }
+
+// HeaderFor assembles the declarations a function's VC mentions (used == nil: everything).
+// Pruning is by symbol occurrence, closed under the definitions and axioms pulled in.
+func (g *Gen) HeaderFor(r *FnResult) string {
+	var used map[string]bool
+	if r != nil {
+		texts := append([]string{}, r.Lines...)
+		for _, o := range r.Obls {
+			texts = append(texts, o.Goal, o.Reach)
+		}
+		used = symTokens(texts...)
+		// close under spec-function definitions and axioms
+		for changed := true; changed; {
+			changed = false
+			for _, d := range g.pureDefs {
+				name := strings.Fields(d)[1]
+				if used[name] && !used["\x00def:"+name] {
+					used["\x00def:"+name] = true
+					for k := range symTokens(d) {
+						if !used[k] {
+							used[k] = true
+							changed = true
+						}
+					}
+				}
+			}
+			for i, a := range g.axioms {
+				key := fmt.Sprintf("\x00ax:%d", i)
+				if used[key] {
+					continue
+				}
+				toks := symTokens(a)
+				hit := false
+				for _, n := range g.ufOrder {
+					if toks[n] && used[n] {
+						hit = true
+						break
+					}
+				}
+				if !hit {
+					for _, d := range g.pureDefs {
+						n := strings.Fields(d)[1]
+						if toks[n] && used[n] {
+							hit = true
+							break
+						}
+					}
+				}
+				if hit {
+					used[key] = true
+					for k := range toks {
+						if !used[k] {
+							used[k] = true
+							changed = true
+						}
+					}
+				}
+			}
+		}
+	}
+	has := func(n string) bool { return used == nil || used[n] }
 	var b strings.Builder
 	b.WriteString(Prelude())
 	b.WriteString(`(define-fun godiv ((a Int) (b Int)) Int (ite (>= a 0) (ite (> b 0) (div a b) (- (div a (- b)))) (ite (> b 0) (- (div (- a) b)) (div (- a) (- b)))))
@@ -127,29 +210,58 @@ func (g *Gen) Header() string {
 		var names []string
 		for _, s := range g.strOrder {
 			n := g.strLits[s]
+			if !has(n) {
+				continue
+			}
 			names = append(names, n)
 			fmt.Fprintf(&b, "(declare-const %s Str) ; %q\n(assert (= (Str_len %s) %d))\n", n, trunc40(s), n, len(s))
 		}
-		fmt.Fprintf(&b, "(assert (distinct str_empty %s))\n", strings.Join(names, " "))
+		if len(names) > 0 {
+			fmt.Fprintf(&b, "(assert (distinct str_empty %s))\n", strings.Join(names, " "))
+		}
 		// integer-looking literals: connect to itoa
 		for _, s := range g.strOrder {
-			if isDecimal(s) {
+			if isDecimal(s) && has(g.strLits[s]) {
 				fmt.Fprintf(&b, "(assert (= %s (itoa %s)))\n", g.strLits[s], s)
 			}
 		}
 	}
 	for _, n := range g.ufOrder {
-		b.WriteString(g.ufDecl[n] + "\n")
+		if has(n) {
+			b.WriteString(g.ufDecl[n] + "\n")
+		}
+	}
+	g.noteEpoch(0)
+	var eps []int
+	for e := range g.epochs {
+		eps = append(eps, e)
+	}
+	sort.Ints(eps)
+	for _, e := range eps {
+		fmt.Fprintf(&b, "(declare-const wfnext@%d Int)\n", e)
 	}
 	for _, hk := range g.heapRefOrder {
 		p := strings.SplitN(hk, "\x00", 2)
+		if !has(p[0]) {
+			continue
+		}
 		fmt.Fprintf(&b, "(declare-const %s %s)\n", p[0], g.TE.heapSort[p[1]])
+		if g.WFAxioms {
+			ep := p[0][strings.LastIndex(p[0], "@")+1:]
+			if ax := wfHeapAxiom(p[0], g.TE.heapSort[p[1]], "wfnext@"+ep); ax != "" {
+				b.WriteString(ax + "\n")
+			}
+		}
 	}
 	for _, d := range g.pureDefs {
-		b.WriteString(d + "\n")
+		if has(strings.Fields(d)[1]) {
+			b.WriteString(d + "\n")
+		}
 	}
-	for _, a := range g.axioms {
-		b.WriteString(a + "\n")
+	for i, a := range g.axioms {
+		if used == nil || used[fmt.Sprintf("\x00ax:%d", i)] {
+			b.WriteString(a + "\n")
+		}
 	}
 	return b.String()
 }
@@ -180,7 +292,10 @@ func trunc40(s string) string {
 // ObligationSMT renders the SMT-LIB text of one obligation.
 func (g *Gen) ObligationSMT(header string, r *FnResult, o *Obligation) string {
 	var b strings.Builder
-	b.WriteString(header)
+	if r.header == "" {
+		r.header = g.HeaderFor(r)
+	}
+	b.WriteString(r.header)
 	fmt.Fprintf(&b, "; ---- function %s, obligation %s (%s) at %s\n; %s\n", r.Key, o.Name, o.Kind, o.Pos, o.Desc)
 	for _, l := range r.Lines[:o.PrefixLen] {
 		b.WriteString(l + "\n")
